@@ -233,6 +233,46 @@ def mut_geometric_sum(repo: Repo) -> List[Mutant]:
     return out
 
 
+def rule_special_cases(repo: Repo) -> List[Ob]:
+    """AcyclicSolver.get lists the iterations below `valid_from` up to the LAST one the general solution does not reproduce.
+    The scan therefore looks at every such iteration: leaving the scan at the first iteration that happens to be covered
+    drops later transient values (1, 0, 5, 0, ... : iteration 1 is covered by the general 0, iteration 2 is not)."""
+    cls = repo.cls("AcyclicSolver", AC)
+    m = cls.find_method("get")
+    key = f"{AC}::AcyclicSolver.get::special-cases"
+    if m is None:
+        return [inconclusive(R, key, AC, cls.node.lineno, "AcyclicSolver", "AcyclicSolver.get not found")]
+    selfn = m.params()[0]
+    scans = []
+    for loop in [n for n in walk_no_nested(m.node) if isinstance(n, ast.For) and isinstance(n.target, ast.Name)]:
+        i = loop.target.id
+        cmp_ = [c for c in ast.walk(loop) if isinstance(c, ast.Compare) and any(isinstance(x, ast.Call) and call_name(x) in ("xreplace", "subs") for x in ast.walk(c))]
+        idx = [a for a in ast.walk(loop) if isinstance(a, ast.Assign) and isinstance(a.value, ast.Name) and a.value.id == i]
+        if cmp_ and idx:
+            scans.append((loop, cmp_[0], idx[0]))
+    if not scans:
+        return [inconclusive(R, key, AC, m.node.lineno, m.qualname, "scan for the last iteration not covered by the general solution not recognised")]
+    loop, cmp_, idx = scans[0]
+    early = [b for b in ast.walk(loop) if isinstance(b, (ast.Break, ast.Return))]
+    if early:
+        return [Ob(R, key, AC, early[0].lineno, m.qualname, False,
+                   "the scan for special cases stops at the first iteration the general solution happens to reproduce: a later iteration below its validity bound that it does not reproduce is answered by the general formula")]
+    return [Ob(R, key, AC, loop.lineno, m.qualname, True, "every iteration below the validity bound is compared with the general solution; the cases up to the last deviating one are listed")]
+
+
+def mut_special_cases(repo: Repo) -> List[Mutant]:
+    def tr(tree):
+        fn = find_def(tree, "AcyclicSolver.get")
+        for n in ast.walk(fn):
+            if isinstance(n, ast.For) and any(isinstance(x, ast.Compare) for x in ast.walk(n)) and any(isinstance(x, ast.If) for x in n.body):
+                iff = next(x for x in n.body if isinstance(x, ast.If))
+                iff.orelse = [ast.Break()]
+                return True
+        return False
+    ov = mutate_module(repo, AC, tr)
+    return [Mutant("scan-stops-at-first-covered-iteration", ov, "fire", "special-cases", control=True)] if ov else []
+
+
 def rule_dispatch(repo: Repo) -> List[Ob]:
     f = repo.function(RS, "RecurrenceSolver.__init__")
     c = cfg_of(f.node)
@@ -263,5 +303,6 @@ RULES = {
     "ANSATZ": Rule(R, rule_ansatz, 2, "general solution of the characteristic-root solver: m terms C*n**i*r**n (i < m) per non-zero root of multiplicity m", mut_ansatz, soft=True),
     "FIT": Rule(R, rule_fit, 2, "the constants are fitted on (ansatz at n, n-th iterate) pairs taken after the transient of the root 0", mut_fit, soft=True),
     "GEOMSUM": Rule(R, rule_geometric_sum, 1, "the summation solver is the geometric-sum identity (exponents, bounds and start index compared as rational functions)", mut_geometric_sum, soft=True),
+    "SPECIALCASES": Rule(R, rule_special_cases, 1, "the summation solver's scan for special cases looks at every iteration below the validity bound", mut_special_cases, soft=True),
     "SOLVERDISPATCH": Rule(R, rule_dispatch, 1, "the summation solver is chosen only under recurrences.is_acyclic", mut_dispatch, soft=True),
 }
